@@ -133,6 +133,16 @@ func Enc(fn func(e *types.Encoder)) []byte {
 	return buf.Bytes()
 }
 
+// SafeEncode is Encode under recover: p is the panic value if the encoder of the code under test panicked.
+func (e *Entry) SafeEncode(v any) (b []byte, p any) {
+	defer func() {
+		if r := recover(); r != nil {
+			b, p = nil, r
+		}
+	}()
+	return e.Encode(v), nil
+}
+
 // Dec runs fn on a decoder over b and reports the decoder error or leftover
 // bytes. The Decoder reads exactly what it needs from the underlying reader
 // (no read-ahead), so the reader's remaining length is the leftover.
